@@ -129,8 +129,14 @@ class PyF:
 
 
 class PyQ:
-    def __init__(self, code): self.code = code
-    def __call__(self, v): return apply_q(self.code, v)
+    """predicate; `style` picks how the truth value is spelled (the library must use truthiness, like Python's filter):
+    0 = bool, 1 = 'yes' / None, 2 = [0] / '', 3 = 1 / 0, 4 = ('x',) / () , 5 = {'k': 0} / {}"""
+    STYLES = [(True, False), ('yes', None), ([0], ''), (1, 0), (('x',), ()), ({'k': 0}, {})]
+
+    def __init__(self, code, style=0): self.code, self.style = code, style
+    def __call__(self, v):
+        t = apply_q(self.code, v)
+        return self.STYLES[self.style][0 if t else 1] if self.style else t
     def __repr__(self): return f'PyQ{self.code}'
 
 
